@@ -19,6 +19,24 @@ fn respond(enc_header: &str, body: &[u8], chunked: bool) -> Vec<u8> {
     }
     w
 }
+/// the same coded body delimited by the end of the connection (no Content-Length, not chunked)
+fn respond_close(enc_header: &str, body: &[u8]) -> Vec<u8> {
+    let mut w = b"HTTP/1.1 200 OK\r\n".to_vec(); w.extend_from_slice(enc_header.as_bytes()); w.extend_from_slice(b"\r\n"); w.extend_from_slice(body); w
+}
+/// every way of reading a body to its end, each on a fresh response: (what was delivered, ended without an error)
+fn read_every_way(wire: &[u8]) -> Vec<(&'static str, Vec<u8>, bool)> {
+    let req = PreparedRequest::new(Method::GET, "http://a.test/");
+    let open = || parse_response(BaseStream::mock(wire.to_vec()), &req, req.url());
+    let mut out = Vec::new();
+    if open().is_err() { return out; }
+    let (g, c) = read_all(wire.to_vec(), 4096); out.push(("read loop", g, c));
+    let mut v = Vec::new(); let r = open().unwrap().read_to_end(&mut v); out.push(("read_to_end", v, r.is_ok()));
+    let mut v = Vec::new(); let r = open().unwrap().split().2.read_to_end(&mut v); out.push(("ResponseReader read_to_end", v, r.is_ok()));
+    let mut v = Vec::new(); let r = std::io::copy(&mut open().unwrap(), &mut v); out.push(("io::copy", v, r.is_ok()));
+    match open().unwrap().bytes() { Ok(b) => out.push(("bytes()", b, true)), Err(_) => out.push(("bytes()", vec![], false)) }
+    let mut v = Vec::new(); let r = open().unwrap().write_to(&mut v); out.push(("write_to()", v, r.is_ok()));
+    out
+}
 /// read with a fixed buffer size until Ok(0) or Err
 fn read_all(wire: Vec<u8>, size: usize) -> (Vec<u8>, bool) {
     let req = PreparedRequest::new(Method::GET, "http://a.test/");
@@ -56,6 +74,16 @@ fn vp_native_decoding_and_damage_body() {
                         cases += 1;
                         assert!(got.len() <= p.len() && got[..] == p[..got.len()], "truncated at {}: delivered bytes are not a prefix", cut);
                         assert!(!clean, "compressed stream cut at {} of {} read as a complete body ({:?}, read size {})", cut, enc.len(), hdr, size);
+                    }
+                }
+                // the same truncations under every framing and through every way of reading to the end (every 7th offset and the last 12)
+                for cut in (0..enc.len()).filter(|c| c % 7 == 0 || c + 12 >= enc.len()) {
+                    for (framing, wire) in [("close-delimited", respond_close(hdr, &enc[..cut])), ("chunked", respond(hdr, &enc[..cut], true)), ("length", respond(hdr, &enc[..cut], false))] {
+                        for (how, got, clean) in read_every_way(&wire) {
+                            cases += 1;
+                            assert!(got.len() <= p.len() && got[..] == p[..got.len()], "{} body truncated at {} read through {}: delivered bytes are not a prefix", framing, cut, how);
+                            assert!(!clean, "compressed stream cut at {} of {} in a {} body read as a complete body of {} bytes through {} ({:?})", cut, enc.len(), framing, got.len(), how, hdr);
+                        }
                     }
                 }
                 // single-bit corruptions of the gzip trailer (CRC32 + ISIZE)
